@@ -108,9 +108,15 @@ def keys_sig(cen):
 
 
 def node_sig(n):
-    import copy
+    """Infoset signature of a style node: expanded names, attributes, character data — not the prefixes
+    (a style copied into a document that binds the same namespace to another prefix is the same style)."""
 
-    return etree.tostring(copy.deepcopy(n), method="c14n")
+    def walk(e):
+        if not isinstance(e.tag, str):
+            return ("#", e.text or "")
+        return (e.tag, tuple(sorted(e.attrib.items())), (e.text or "").strip(), tuple(walk(c) for c in e), )
+
+    return repr(walk(n)).encode()
 
 
 def expected_place(family, automatic, default):
